@@ -744,6 +744,7 @@ static void run_one(uint64_t idx)
 {
     S->cur_case = (int64_t)idx;
     case_tick = 0;
+    fparmed = 0;           /* a case abandoned inside VRT_NOMEM must not leave the failpoints armed */
     S->nops = 0;
     S->entry = NULL;
     S->state = NULL;
